@@ -332,4 +332,9 @@ func init() {
 			}
 		}
 	}
+
+	ext("C04", "Content-Encoding truthfulness through ServeHTTP with a marking compressor registered as 'zz': Accept-Encoding in {absent, zz, gzip, *, 'zz;q=0, identity', 1..3 symbolic bytes} x request body plain / compressed",
+		HarnessSpec{Name: "VerifH_serveHTTP_encoding", Covers: []string{"plain-response", "compressed-request"}})
+	ext("C03", "request body sent with Content-Encoding (marking compressor) reaches the codec decompressed",
+		HarnessSpec{Name: "VerifH_serveHTTP_encoding", Covers: []string{"compressed-request"}})
 }
